@@ -50,6 +50,9 @@ func c11Doc(r *core.Rand, today ref.Date) (string, []c11Rec) {
 	day := today.Days() - r.Range(0, 2) - n - tail
 	for i := 0; i < n; i++ {
 		day += r.PickInt(1, 1, 1, 2)
+		if i > 0 && core.Hash64("c11-same-date", fmt.Sprint(day, n, i))%4 == 0 {
+			day = recs[i-1].date.Days() // several records may carry the same date: each of them is a record of the file like any other
+		}
 		recs = append(recs, c11Rec{date: ref.DateFromDays(day), dashes: r.Chance(2, 3), indent: r.Pick("    ", "  ", "   ", "\t"), eol: r.Pick("\n", "\n", "\r\n"),
 			kind: r.PickInt(0, 1, 2, 2, 3, 3, 4), h12: r.Chance(1, 3), dashSpaces: r.Chance(2, 3), extraQ: r.PickInt(0, 0, 2, 4), summary: r.Chance(1, 3)})
 	}
